@@ -206,6 +206,8 @@ def classes():
                         o = c.objs[t]
                         out.append(o)
                         snap.append(("new", t, o.agent_id, o.market_id, bool(o.is_buy), None if o.price is None else float(o.price), o.volume, o.ttl))
+                        # the object is a live order: hooks see its volume at the moment the request is handled (the run ends there)
+                        c.resubmitted = (len(c.batches), len(snap) - 1, t)
                         c.malformed_done = True
                 elif kind == "cancel_unsubmitted":
                     mid = mids[0]
@@ -350,6 +352,7 @@ def run_case(case):
     c = Ctx()
     CTX = c
     c.ev, c.batches, c.objs, c.my_orders, c.nconsult = [], [], [], {}, {}
+    c.resubmitted = None
     c.aseed, c.pmkt = case["aseed"], case.get("pmkt", 0.1)
     c.batch_sizes = case.get("batch_sizes", [0, 1, 1, 2, 3])
     c.malformed, c.malformed_done, c.malformed_at = case.get("malformed"), False, case.get("malformed_at", 0)
@@ -405,6 +408,16 @@ def run_case(case):
         res["error"] = err
         c.ev.append([9, err.code])
         res["error_text"] = (repr(e) + " @ " + "".join(traceback.format_tb(e.__traceback__)[-2:]))[-600:]
+    if getattr(c, "resubmitted", None):
+        bi, si, t = c.resubmitted
+        if bi < len(c.batches):
+            aid_, snap_ = c.batches[bi]
+            x = list(snap_[si])
+            o_ = c.objs[t]
+            same = (bool(o_.is_buy), None if o_.price is None else float(o_.price), o_.ttl) == (x[4], x[5], x[7])
+            if same:          # not rewritten by an order-mistake shock on the way: the volume read at handling time is the final one
+                x[6] = o_.volume
+            snap_[si] = tuple(x)
     res.update(events=c.ev, tape=prng.tape, batches=c.batches, funds=funds)
     res["final"] = [[fr(a.cash_amount), [a.asset_volumes[k] for k in sorted(a.asset_volumes)]] for a in sim.agents]
     return res
